@@ -108,6 +108,14 @@ def gen_case(rng, tier, i):
     if int_theta:
         for c in case["cols"]:
             c["theta"] = [None if t is None else float(math.floor(t)) for t in c["theta"]]
+    elif exact and rng.random() < 0.12:
+        # weak stratification: target_data of the form 1024 + x / 4096 (cells a few 1e-4 wide on values of order 1e3);
+        # a cell that is narrow relative to its magnitude is still an interval, not a point
+        case["fine"] = True
+        f = lambda x: None if x is None else 1024.0 + x / 4096.0  # noqa: E731  (exact in float64, monotone)
+        for c in case["cols"]:
+            c["theta"] = [f(t) for t in c["theta"]]
+        case["bins"] = [f(b) for b in case["bins"]]
     return case
 
 
